@@ -53,9 +53,13 @@ def synth(outbase, nuclide, process, rng, n=None, shape=None, layout="test", qui
     if layout == "test":
         emin = round(Q * (0.0005 + 0.08 * rng.uniform()), 6)
         emax = round(Q * (0.90 + 0.08 * rng.uniform()) - emin, 6)
-    else:
+    elif rng.uniform() < 0.5:
         emin = round(Q * (0.002 + 0.004 * rng.uniform()), 6)
         emax = round(Q * 0.9995, 6)
+    else:
+        # a wider strip between the maximum energy sum and E_min + E_max (up to ~8 % of Q)
+        emin = round(Q * (0.01 + 0.06 * rng.uniform()), 6)
+        emax = round(Q * (0.96 + 0.035 * rng.uniform()), 6)
     par = {"flat": (), "peaked": (0.1 + 0.5 * rng.uniform(), 0.1 + 0.4 * rng.uniform(), 0.03 + 0.2 * rng.uniform()),
            "steep": (rng.choice([5, 20, 60, 150, 400]),), "phase": (), "zerotail": (0.35 + 0.5 * rng.uniform(),),
            "holes": (lambda a: (a, a + 0.05 + 0.2 * rng.uniform()))(0.1 + 0.3 * rng.uniform())}[shape]
@@ -84,11 +88,26 @@ def synth(outbase, nuclide, process, rng, n=None, shape=None, layout="test", qui
             app.load_tab_pdf()
             app.fill_tab_cdf()
             app.fill_tab_ncdf()
-            if layout != "exceeds":   # the p.d.f. loader demands exact zeros above Q, the encoder a non-zero last row: c.d.f. file only
+            if layout != "exceeds":
                 app.save_tab_pdf(False)
             app.save_tab_ncdf(1, False)
     finally:
         os.chdir(cwd)
+    if layout == "exceeds":
+        # the p.d.f. loader demands exact zeros above Q while the encoder needs a non-zero last row: the p.d.f. file of this layout
+        # (E_min + E_max above the maximum energy sum, as the documented real tables) is written here, in the encoder's format, with
+        # exact zeros on every node above Q
+        with open(os.path.join(d, "tab_pdf.data"), "w") as f:
+            f.write("#isotope=%s\n#dbd_ga.mode=%s\n%.4f\n" % (nuclide, process, Q))
+            f.write("Probability %.16e %.16e %.16e %d\n" % (app.e1min, app.e1max, app.estep, n))
+            for i in range(n):
+                e1 = app.e1min + i * app.estep
+                row = []
+                for j in range(n - i):
+                    e2 = app.e1min + j * app.estep
+                    pv = pdf_value(shape, e1, e2, Q, par)
+                    row.append(0.0 if e1 + e2 > float("%.4f" % Q) else max(pv, 1e-6))
+                f.write(" ".join("%.7e" % v for v in row) + " \n")
     truth = {"nuclide": nuclide, "process": process, "n": n, "shape": shape, "layout": layout, "Q": Q,
              "emin": app.e1min, "emax": app.e1max, "estep": app.estep,
              "e1_cdf": [t[0] for t in app.tab_ncdf], "e2_cdf": [t[1] for t in app.tab_ncdf]}
